@@ -150,6 +150,7 @@ func (t *Transcoder) registerRules(rules []*annotations.HttpRule) error {
 		if selector == "" {
 			return errors.New("rule missing selector")
 		}
+		var wildcard bool
 		if i := strings.Index(selector, "*"); i >= 0 {
 			if i != len(selector)-1 {
 				return fmt.Errorf("wildcard selector %q must be at the end", rule.GetSelector())
@@ -158,10 +159,16 @@ func (t *Transcoder) registerRules(rules []*annotations.HttpRule) error {
 			if len(selector) > 0 && !strings.HasSuffix(selector, ".") {
 				return fmt.Errorf("wildcard selector %q must be whole component", rule.GetSelector())
 			}
+			wildcard = true
 		}
 		for _, methodConf := range t.methods {
 			methodName := string(methodConf.descriptor.FullName())
-			if !strings.HasPrefix(methodName, selector) {
+			if wildcard {
+				if !strings.HasPrefix(methodName, selector) {
+					continue
+				}
+			} else if methodName != selector {
+				// Without a wildcard, the selector names exactly one method.
 				continue
 			}
 			methodRules[methodConf] = append(methodRules[methodConf], rule)
